@@ -364,8 +364,44 @@ type Converter interface {
 		Patterns: []string{"./t11/conv"}, Tags: []string{"T11", "healthy", "name-collision"}}
 }
 
+// T12: an extend function that needs several contexts is reached from a generated
+// sub-method (nested named struct below the declared method that owns the contexts): the
+// sub-method receives the missing context parameters in the order they are requested.
+func T12(rng *rand.Rand) *World {
+	ctx := names(rng, "Ctx", 3)
+	src := fmt.Sprintf(`package t12
+
+// goverter:converter
+// goverter:extend ExtLeaf
+type Converter interface {
+	// goverter:context a
+	// goverter:context b
+	// goverter:context c
+	Convert(source In, a %[1]s, b %[2]s, c %[3]s) Out
+}
+
+// goverter:context a
+// goverter:context b
+// goverter:context c
+func ExtLeaf(s Leaf, a %[1]s, b %[2]s, c %[3]s) LeafOut { return LeafOut{} }
+
+type %[1]s struct{ X int }
+type %[2]s struct{ Y int }
+type %[3]s struct{ Z int }
+type In struct{ N Nested; L []Nested }
+type Out struct{ N NestedOut; L []NestedOut }
+type Nested struct{ Deep Deeper }
+type NestedOut struct{ Deep DeeperOut }
+type Deeper struct{ V Leaf }
+type DeeperOut struct{ V LeafOut }
+type Leaf struct{ A int }
+type LeafOut struct{ A int }
+`, ctx[0], ctx[1], ctx[2])
+	return &World{Name: "T12", Module: DefaultModule, Files: map[string]string{"t12/c.go": src}, Patterns: []string{"./t12"}, Tags: []string{"T12", "healthy", "contexts"}}
+}
+
 // Templates lists all template constructors.
-var Templates = []func(*rand.Rand) *World{T1, T2, T3, T4, T5, T6, T7, T8, T9, T10, T11}
+var Templates = []func(*rand.Rand) *World{T1, T2, T3, T4, T5, T6, T7, T8, T9, T10, T11, T12}
 
 // Combine merges several worlds into one module by prefixing their package directories.
 // Import paths inside the sources are rewritten accordingly.
